@@ -11,3 +11,9 @@ Proof. vm_compute. reflexivity. Qed.
 
 Theorem ambient_reads_listed : ambient_reads = [("GenerateImports", "runtime/debug.ReadBuildInfo")].
 Proof. vm_compute. reflexivity. Qed.
+
+(** No formatted text of pkg/codegen prints a value by address (a verb applied to a pointer that has no Error / String
+    method of its own, a pointer below the top level of a value, a channel, a function, or the verb p): such a text would
+    differ from load to load of one document (regenerated from the source with go/types on every run). *)
+Theorem no_text_prints_an_address : address_formats = [].
+Proof. vm_compute. reflexivity. Qed.
